@@ -174,6 +174,10 @@ class TheoryOracle(walkers.DagWalker):
             theory.strings = True
         elif ty.is_custom_type():
             theory.custom_type = True
+            # The arguments of an instance of a parametric sort are
+            # sorts of the formula, too: (P S Int) needs the integers
+            for arg in getattr(ty, "args", None) or ():
+                theory = theory.combine(self._theory_from_type(arg))
         else:
             # ty is either a function type
             theory.uninterpreted = True
